@@ -18,11 +18,7 @@ package http1
 //@   ensures old(evDepth) > 0 ==> r != nil && evDepth == old(evDepth) - 1
 //@   ensures old(evDepth) <= 0 ==> r == nil && evDepth == old(evDepth)
 
-// Assumed: the pools used by the server are constructed with a New function that returns a non-nil
-// object (NewServer: &eventStack{}), so Get never yields nil.
-//@ extern sync.Pool.Get(p) r
-//@   abstract-too
-//@   ensures r != nil
+// (the assumed contract of sync.Pool.Get - never nil - is with the other standard-library contracts in internal/bytesconv)
 
 // ---- C01(e), C03 (reject path), C18 (exit check): further typestates of the same Serve loop ----
 // phase: 0 = iteration has neither run the handler nor written a response, 2 = handler returned,
